@@ -13,6 +13,7 @@ import (
 func init() {
 	generators["C20"] = func(tier, out string, sum *Summary) {
 		genC20(tier, out, sum)
+		c20Kinds(sum)
 		extraTextCases("C20", tier, out, sum, true, false)
 	}
 	generators["C18"] = func(tier, out string, sum *Summary) {
@@ -675,6 +676,20 @@ func genC18(tier, out string, sum *Summary) {
 			sum.direct("closure", e, doc, "serialising and decoding the result changes it: "+string(b))
 		}
 	}
+	// numbers no decimal holds (1e7000, 1e-7000 ...) under every numeric operator and built-in, as literals and as
+	// data: the outcome is an error or a result that is closed (never an infinity or a NaN that travels on)
+	for _, big := range []string{"1e7000", "-1e7000", "1e6145", "-9e6200", "1e999999999", "1e-7000", "123456789012345678901234567890e6130"} {
+		for _, form := range []string{"X", "- X", "- - X", "+ X", "[- X]", "{k: - X}", "map(&- @, [X])", "[X][0]", "- X * `0`", "X + `1`", "X - X", "X * `1`", "X / `1`", "`1` / X", "X // `1`", "X % `7`", "abs(X)", "ceil(X)", "floor(X)", "sum([X])", "avg([X, X])", "max([X, `1`])", "min([X])",
+			"sort([X, `1`])", "sort_by([{k: X}, {k: `1`}], &k)", "max_by([{k: X}], &k)", "to_number(X)", "to_string(X)", "to_number(to_string(X))", "not_null(X)", "[X, - X] | [0]", "- X | [@]", "let $v = - X in [$v, $v]", "- (X || `1`)", "!X", "X == X", "- X == - X", "X < `1`", "[X, `1`][?@ > `0`]", "zip([X], [- X])", "merge({a: - X})", "values({a: - X})", "reverse([- X, X])"} {
+			for _, src := range []string{"`" + big + "`", "n"} {
+				e := strings.ReplaceAll(form, "X", src)
+				doc := map[string]any{"n": json.Number(big)}
+				o := search(e, doc)
+				sum.count("beyond-range/" + o.Kind)
+				closed(e, doc, o)
+			}
+		}
+	}
 	opaqueFamily(sum, "closure")
 	// strings that are nearly numbers, converted: the result is a JSON number or null, never anything else
 	for _, x := range numberish(tier) {
@@ -1190,4 +1205,53 @@ func testsTruth(e *R) bool {
 		}
 	}
 	return false
+}
+
+// equality is by VALUE whatever carries the number: every pair of Go kinds that can hold v, at the limits of the
+// kinds (2^63 and 2^64-1 exist only as uint, uint64, text and decimal), against the values a wrapping conversion
+// would confuse them with
+func c20Kinds(sum *Summary) {
+	vals := []string{"9223372036854775808", "18446744073709551615", "9223372036854775807", "-9223372036854775808", "9007199254740993", "4294967295", "4294967296", "255", "-128", "65535", "32768", "0", "1", "-1"}
+	alias := map[string][]string{"9223372036854775808": {"-9223372036854775808", "9223372036854775807"}, "18446744073709551615": {"-1", "18446744073709551614", "0"}, "4294967295": {"-1"}, "4294967296": {"0"}, "255": {"-1"}, "65535": {"-1"}, "32768": {"-32768"},
+		"9007199254740993": {"9007199254740992", "9007199254740994"}, "-9223372036854775808": {"9223372036854775808"}, "9223372036854775807": {"-1", "9223372036854775806"}}
+	reported := 0
+	check := func(expr string, doc any, want bool) {
+		o := search(expr, doc)
+		sum.count("kinds/" + o.Kind)
+		if !(o.Kind == "val" && o.Value == want) && reported < 10 {
+			reported++
+			sum.direct("equality-by-value", expr, doc, fmt.Sprintf("expected %v for x of Go type %T and y of Go type %T, got %s", want, doc.(map[string]any)["x"], doc.(map[string]any)["y"], describe(o)))
+		}
+	}
+	for _, t := range vals {
+		var carriers []any
+		for _, kc := range kindConvs {
+			if strings.Contains(kc.name, "/") {
+				continue
+			}
+			if v, ok := kc.conv(json.Number(t)); ok {
+				carriers = append(carriers, v)
+			}
+		}
+		for _, x := range carriers {
+			for _, y := range carriers {
+				d := map[string]any{"x": x, "y": y, "l": []any{json.Number("7"), y}}
+				check("x == y", d, true)
+				check("x != y", d, false)
+				check("[x] == [y]", d, true)
+				check("{k: x} == {k: y}", d, true)
+				check("contains(l, x)", d, true)
+				check("x == `"+t+"`", d, true)
+				check("length(l[?@ == $.x]) == `1`", d, true)
+			}
+			for _, a := range alias[t] {
+				d := map[string]any{"x": x, "y": json.Number(a), "l": []any{json.Number(a)}}
+				check("x == y", d, false)
+				check("y != x", d, true)
+				check("contains(l, x)", d, false)
+				check("x == `"+a+"`", d, false)
+				check("[x] == l", d, false)
+			}
+		}
+	}
 }
